@@ -2,6 +2,7 @@ package harness
 
 import (
 	"bytes"
+	"crypto/sha256"
 	"fmt"
 	"strconv"
 	"strings"
@@ -16,6 +17,8 @@ import (
 // C19, second extension: the rollapp-id grammar, x/rollapp store keys, '/'-separated scans.  The scan
 // prefixes are the ones the keeper functions pass to KVStorePrefixIterator (their statement listings
 // are pinned in Lemmas/GenEqKeysX.lean); membership is bytes.HasPrefix on the real keys.
+
+var c19DemandIds = map[string]string{}
 
 func c19WsEdge(b []byte) bool {
 	w := func(c byte) bool { return c == 32 || (c >= 9 && c <= 13) || c >= 128 }
@@ -156,6 +159,33 @@ func c19ExecX(r *Run, line string, f []string) (string, bool) {
 			r.Violate("C19/key_order/state-infos-not-in-index-order", fmt.Sprintf("%d %d compare %d", u(2), u(3), c), line)
 		}
 		return strconv.Itoa(c), true
+	case "doid":
+		// doid <packet key> <sha256 of it, computed by the generator>: the real id builder
+		k := str(1)
+		id := eibctypes.BuildDemandIDFromPacketKey(k)
+		if prev, ok := c19DemandIds[id]; ok && prev != k {
+			r.Violate("C19/demand_order_id/collision", fmt.Sprintf("id %s names packet keys %x and %x", id, prev, k), line)
+		}
+		c19DemandIds[id] = k
+		if len(id) != 64 {
+			r.Violate("C19/demand_order_id/length", id, line)
+		}
+		return Hex([]byte(id)), true
+	case "b64nc":
+		text := str(1)
+		dec, err := commontypes.DecodePacketKey(text)
+		vb := (&datypes.MsgFinalizePacketByPacketKey{Sender: "dym1g8sf7w4cz5gtupa6y62h3q6a4gjv37pgefnpt5", PacketKey: text}).ValidateBasic() == nil
+		if err != nil {
+			return fmt.Sprintf("err vb=%v", vb), true
+		}
+		same := bytes.Equal(dec, unhex(f[2]))
+		if same && text != commontypes.EncodePacketKey(dec) {
+			r.Hit("b64-noncanonical-text-names-the-same-key")
+			if vb {
+				r.Hit("b64-noncanonical-text-accepted-by-MsgFinalizePacketByPacketKey.ValidateBasic")
+			}
+		}
+		return fmt.Sprintf("ok %s %v vb=%v", Hex(dec), same, vb), true
 	case "xsapp":
 		k := rollapptypes.AppKey(rollapptypes.App{RollappId: str(3), Id: u(4)})
 		in := bytes.HasPrefix(k, rollapptypes.RollappAppKeyPrefix(str(1)))
@@ -214,7 +244,42 @@ func c19GenX(r *Run, g *Rng, emit func(kind, line string)) {
 	}
 	hx := func(s string) string { return Hex([]byte(s)) }
 	ch := func() string { return hx(fmt.Sprintf("channel-%d", g.Intn(300))) }
-	switch g.Intn(12) {
+	switch g.Intn(14) {
+	case 12:
+		k := commontypes.RollappPacketKey(c19Status[g.Intn(2)], ra, h, c19Types[g.Intn(4)], fmt.Sprintf("channel-%d", g.Intn(300)), n)
+		if g.Chance(30) {
+			k = c19Bytes(g)
+		}
+		sum := sha256.Sum256(k)
+		emit("doid", fmt.Sprintf("doid %s %s", Hex(k), Hex(sum[:])))
+	case 13:
+		k := c19Bytes(g)
+		if g.Chance(50) {
+			k = commontypes.RollappPacketKey(c19Status[g.Intn(2)], ra, h, c19Types[g.Intn(4)], "channel-0", n)
+		}
+		t := []byte(commontypes.EncodePacketKey(k))
+		switch g.Intn(5) {
+		case 0: // unused trailing bits of the last sextet set
+			for i := len(t) - 1; i >= 0; i-- {
+				if t[i] != '=' {
+					const al = "ABCDEFGHIJKLMNOPQRSTUVWXYZabcdefghijklmnopqrstuvwxyz0123456789+/"
+					if i < len(t)-1 {
+						t[i] = al[(strings.IndexByte(al, t[i])|1)%64]
+					}
+					break
+				}
+			}
+		case 1:
+			t = append(t, '\n')
+		case 2:
+			if len(t) > 2 {
+				i := g.Intn(len(t))
+				t = append(t[:i:i], append([]byte{'\r', '\n'}, t[i:]...)...)
+			}
+		case 3:
+			t = bytes.TrimRight(t, "=")
+		}
+		emit("b64nc", fmt.Sprintf("b64nc %s %s", Hex(t), Hex(k)))
 	case 0, 1:
 		emit("rvalid", "rvalid "+hx(c19IdCandidate(g)))
 	case 2:
